@@ -108,7 +108,9 @@ def elementwise_quadrature(mesh, supermesh=None, tind=None, intorder=None):
     X, W = get_quadrature(supermesh.elem, intorder)
     mmap = mesh.mapping()
     smap = supermesh.mapping()
+    # the Jacobian of the mesh map belongs to the pulled-back points
+    Y = mmap.invF(smap.F(X), tind=tind)
     return (
-        mmap.invF(smap.F(X), tind=tind),
-        np.abs(smap.detDF(X) / mmap.detDF(X, tind=tind)) * W,
+        Y,
+        np.abs(smap.detDF(X) / mmap.detDF(Y, tind=tind)) * W,
     )
